@@ -107,6 +107,9 @@ func (H) Gen(prop string, rng *rand.Rand, tier string) *core.Plan {
 	if prop == "C12" {
 		return genC12(rng, tier)
 	}
+	if prop == "C19" {
+		return genC19n(rng, tier)
+	}
 	p := &core.Plan{Harness: "node", Prop: prop, Cfg: map[string]int{}}
 	p.Cfg["preempt_pm"] = []int{0, 2, 10, 40}[rng.Intn(4)]
 	p.Cfg["switch_pm"] = []int{50, 300}[rng.Intn(2)]
@@ -185,6 +188,9 @@ func (H) Run(c *core.RunCtx) {
 		return
 	case "C12":
 		runC12(c)
+		return
+	case "C19":
+		runC19n(c)
 		return
 	}
 	n, err := Start(c, c.Dir)
